@@ -12,6 +12,7 @@ package main
 
 import (
 	"fmt"
+	"math"
 	"math/rand"
 	"time"
 
@@ -305,6 +306,11 @@ func c10ringExec(c *Ctx, x *c10ring, op Op) Ev {
 				pv, ok := e.Peek(k)
 				ats = append(ats, [4]int{k, x.idOf(e.At(k)), pv, b2i(ok)})
 			}
+			// offsets of extreme magnitude (logged clamped to what TLC can hold)
+			for _, k := range []int{1 << 32, -(1 << 32), 1<<32 + 1, -(1<<32 + 1), 1<<32 + n, math.MaxInt, math.MinInt, math.MinInt + 1, 1 << 31, -(1 << 31), 1 << 16, 1<<16 + 1} {
+				pv, ok := e.Peek(k)
+				ats = append(ats, [4]int{clampK(k), x.idOf(e.At(k)), pv, b2i(ok)})
+			}
 			elems = append(elems, []any{id, x.idOf(e.Next()), x.idOf(e.Prev()), n, each, ats})
 		}
 		ev["elems"] = elems
@@ -371,8 +377,36 @@ func runC10(c *Ctx) {
 			c10replay(c, c.NewHist("tlc-path"), kind, p)
 		}
 	}
+	if kind == "stack" || kind == "mqueue" {
+		// grow past a thousand elements, drain to a few, look at the bottom
+		for i := 0; i < c.Pick(2, 12); i++ {
+			rng := c.Rng("c10-big-"+kind, i)
+			h := c.NewHist(kind + "-big")
+			x := &c10seq{kind: kind}
+			do := func(op Op) { h.Emit(c10seqExec(c, x, op, rng)) }
+			do(Op{"op": "new", "v": 0})
+			n := 900 + rng.Intn(c.Pick(700, 4000))
+			for j := 1; j <= n; j++ {
+				name := "add"
+				if kind == "stack" {
+					name = "push"
+				}
+				do(Op{"op": name, "v": j, "offs": []int{0, j - 1, j}, "stop": 1})
+			}
+			keep := 1 + rng.Intn(40)
+			for x.obj().Len() > keep {
+				do(Op{"op": "pop", "offs": []int{0, x.obj().Len() - 2, x.obj().Len() - 1}, "stop": 1})
+			}
+			do(Op{"op": "pop"})
+			for x.obj().Len() > 0 {
+				do(Op{"op": "pop"})
+			}
+			do(Op{"op": "pop"})
+		}
+	}
 	nh := c.Pick(200, 5000)
 	hangs := 0
+	_ = hangs
 	for i := 0; i < nh; i++ {
 		c.genGuard(func() {
 			rng := c.Rng("c10-"+kind, i)
